@@ -195,7 +195,16 @@ pub fn record_alphabet(section: &str) -> Vec<String> {
             "3,100,0,0,0",
             "Sample,100,0,\"s.wav\",50",
         ],
-        "Colours" => &["Combo3 : 255,255,255,7", "Combo1 : 0,0,0", "SliderTrackOverride: 1,1,1", "SliderBorder : 8,8,8", "Other:1,2,3"],
+        "Colours" => &[
+            "Combo3 : 255,255,255,7",
+            "Combo1 : 0,0,0",
+            "SliderTrackOverride: 1,1,1",
+            "SliderBorder : 8,8,8",
+            "Other:1,2,3",
+            // custom colours whose names look like headers or comments (an indented line is a record, not a header)
+            " [HitObjects] : 4,5,6",
+            "[NotASection] : 7,8,9",
+        ],
         "TimingPoints" => &[
             "{t},500,4,1,0,100,1,0",
             "{t},-30,4,1,0,100,0,0",
@@ -229,6 +238,10 @@ pub fn record_alphabet(section: &str) -> Vec<String> {
             "300,300,{t},1,8,0:2",
             "131072,-131072,{t},1,0",
             "0,0,{t},2,0,L|131072:131072,1",
+            // natural length exactly at the parse limit, repeat field 0 and negative
+            "-65536,0,{t},2,0,L|65536:0,1",
+            "100,100,{t},2,2,L|200:100,0,100,2|4,1:2|3:1",
+            "100,100,{t},2,0,L|200:100,-3,50",
         ],
         _ => &[],
     };
@@ -252,7 +265,7 @@ pub fn at_time(rec: &str, t: i64) -> String {
 }
 
 /// Hostile numerics used for field deviations (C01/C07).
-pub const HOSTILE: [&str; 26] = [
+pub const HOSTILE: [&str; 29] = [
     "0", "1", "-1", "0.5", "7e0", " 7 ", "+7", "", "-", "NaN", "nan", "inf", "-inf", "1e999", "1e-320", "2147483647", "2147483648",
-    "-2147483648", "131072", "131073", "-131073", "9000", "9001", "0x10", "\u{661}", "\u{FFFD}",
+    "-2147483648", "131072", "131073", "-131073", "9000", "9001", "0x10", "\u{661}", "\u{FFFD}", "+0", "-0", " 0",
 ];
